@@ -36,10 +36,8 @@
        idx^nidx: address index of each admitted connection on G (-1 unknown).
 
    DIAGNOSTICS  conform_case: [901; event; clause; detail] (gater), [901; clause; position] (e2e)
-                monitor_case: [902; event; clause; detail; explained] (gater) where
-                  clause 1 probe answer (detail = probe index), 2/3/4 peer/address/subnet list,
-                  explained = 1 iff the same trace is accepted when a subnet rule is identified
-                  by the text IPNet.String() prints instead of by the set of its addresses;
+                monitor_case: [902; event; clause; detail] (gater) where
+                  clause 1 probe answer (detail = probe index), 2/3/4 peer/address/subnet list;
                 [902; clause; ...] (e2e), clauses listed at pipeline_ok. *)
 From Coq Require Import List NArith ZArith Bool.
 From Verif Require Import lib.Wire c10.Model.
@@ -76,10 +74,10 @@ Definition rid_eqb (a b : rid) : bool :=
 (* the subnet an IPNet denotes: family of the (normalised) network, the
    prefix length in that family (a 16-byte mask over an IPv4 network counts
    its last 32 bits), and the network number with the host bits cleared.
-   [textual = true] keeps the host bits: two IPNets are then the same rule
-   only if String() prints the same text for them (the identity the code
-   uses); [textual = false] is the identity of the property: the same set of
-   addresses is the same subnet. *)
+   [textual = false] is the identity of the property (and what the monitor
+   uses): the same set of addresses is the same subnet.  [textual = true]
+   keeps the host bits, i.e. identifies an IPNet by the text String() prints
+   for it; it is only used in proofs, to relate IPNets to their String(). *)
 (* the top [len] bits of a value of the family ([N.shiftr v k] = v / 2^k) *)
 Definition top_bits (is4 : bool) (v len : N) : N := N.shiftr v (fam_bits is4 - len).
 
@@ -214,12 +212,12 @@ Definition op_parts (o : op) : bool * rule :=
 (* monitor step: update what is known from the call and its result, then
    judge the observations.  Diagnostic: [902; event index; clause; detail]
    clause 1 = probe answers, 2 = peer list, 3 = address list, 4 = subnet list *)
-Definition mon_update (tx : bool) (ms : mstate) (e : event) (res : Z) : option mstate :=
+Definition mon_update (ms : mstate) (e : event) (res : Z) : option mstate :=
   match ev_op e with
   | None => Some ms
   | Some o =>
       let '(isb, r) := op_parts o in
-      match rid_of_rule tx r with
+      match rid_of_rule false r with
       | Some id => Some (mon_call ms isb id (Z.eqb res 0))
       | None => None
       end
@@ -235,15 +233,15 @@ Definition obs_check (ms : mstate) (prs : list probe) (x : obs) : list Z :=
       else []
   end.
 
-Fixpoint monitor_trace (tx : bool) (prs : list probe) (ms : mstate) (i : Z) (tr : list (event * obs)) : list Z :=
+Fixpoint monitor_trace (prs : list probe) (ms : mstate) (i : Z) (tr : list (event * obs)) : list Z :=
   match tr with
   | [] => []
   | (e, x) :: r =>
-      match mon_update tx ms e (o_res x) with
+      match mon_update ms e (o_res x) with
       | None => [ERR_MALFORMED; i]
       | Some ms' =>
           match obs_check ms' prs x with
-          | [] => monitor_trace tx prs ms' (i + 1)%Z r
+          | [] => monitor_trace prs ms' (i + 1)%Z r
           | d => ERR_PROPERTY :: i :: d
           end
       end
@@ -341,7 +339,7 @@ Definition admitted (x : e2e) : bool := (0 <? x_gconns x)%Z || (0 <? x_gnotifs x
 Fixpoint mon_calls (ms : mstate) (h : list event) : option mstate :=
   match h with
   | [] => Some ms
-  | e :: r => match mon_update false ms e (model_res e) with Some ms' => mon_calls ms' r | None => None end
+  | e :: r => match mon_update ms e (model_res e) with Some ms' => mon_calls ms' r | None => None end
   end.
 
 Definition is_tdial (e : pev) : bool := match e with PvTransportDial _ => true | _ => false end.
@@ -772,14 +770,7 @@ Definition monitor_case (l : list Z) : list Z :=
   match l with
   | 0 :: r =>
       match dec_gater r with
-      | Some (prs, tr) =>
-          (* the property's reading: a subnet is the set of its addresses.  When that
-             fails, the last field says whether the same trace is accepted under the
-             code's reading (a subnet rule is identified by the text String() prints) *)
-          match monitor_trace false prs [] 0 tr with
-          | [] => []
-          | d => d ++ [match monitor_trace true prs [] 0 tr with [] => 1 | _ => 0 end]
-          end
+      | Some (prs, tr) => monitor_trace prs [] 0 tr
       | None => [ERR_MALFORMED; 0]
       end
   | 1 :: r =>
